@@ -125,7 +125,7 @@ def run_harness(ctx, scenarios, name, run_re="TestVerifReload", timeout=1500):
 
 
 def parse_result(r):
-    for ln in r.prints + r.out.splitlines():
+    for ln in [vlib.result_tuple(r) or ""]:
         m = re.match(r'^<<"RESULT", (\d+), (\d+), (\d+), <<([\d, ]+)>>, (\d+)>>', ln.strip())
         if m:
             vio = [int(x) for x in m.group(4).split(",")]
@@ -147,7 +147,8 @@ def judge(ctx, tf, desc, pid, kind_text, scenarios=None, only=None):
     ok, r = vlib.validate_traces(ctx, "ReloadTrace", "ReloadTrace.cfg", tf, timeout=900)
     res = parse_result(r)
     if res is None or res["lines"] != len(rows) or not ok:
-        raise vlib.Inconclusive("ReloadTrace did not consume the whole trace (%s): %s" % (desc, "\n".join(r.out.splitlines()[-15:])))
+        raise vlib.Inconclusive("ReloadTrace did not consume the whole trace (%s): rc=%s ok=%s parsed=%s rows=%d\n%s" % (
+            desc, r.rc, ok, res and res.get("lines"), len(rows), "\n".join([l for l in r.out.splitlines() if "rror" in l or "xception" in l][:6] + r.out.splitlines()[-6:])))
     ctx.cov["traces_validated_against_impl"] += res["nscen"]
     ctx.cov.setdefault("probes", 0)
     ctx.cov["probes"] += res["nprobe"]
